@@ -386,7 +386,7 @@ theorem feedLoop_succ (cfg : Cfg) (urlOk : Bool → Bytes → Bool) (f : Nat) (s
       | .stop o => { o with evs := acc ++ o.evs }
       | .cont st' d' ev =>
         if d'.length < d.length then feedLoop cfg urlOk f st' d' (acc ++ ev)
-        else { st := { st' with tail := d' }, evs := acc ++ ev, rest := [], err := none } := by
+        else { st := { st' with failed := true }, evs := acc ++ ev, rest := [], err := some .badHttpMessage } := by
   have hde : d.isEmpty = false := by cases d <;> simp_all
   rw [feedLoop]
   simp only [hde, Bool.false_eq_true, if_false]
